@@ -18,8 +18,11 @@ func init() {
 			"(b) notation.VerifyBlob returns the TargetArtifact of the payload decoded from the outcome the verifier returned, together with that outcome; VerificationOutcome.UserMetadata returns that payload's annotations; " +
 			"(c) tables: signer.algorithms == verifier.algorithms and both cover every hash core-go derives from the six key specs; proto.HashAlgorithmFromKeySpec agrees with core-go's KeySpec.SignatureAlgorithm().Hash() on the six key specs " +
 			"(both evaluated by abstract interpretation); EncodeKeySpec and DecodeKeySpec are mutually inverse on the six constants; the payload content type written by the signer is the constant the verifier accepts; " +
-			"(d) payload construction: SanitizeTargetArtifact copies exactly media type, digest, size and annotations of its argument; both signers sign Payload{SanitizeTargetArtifact(desc parameter)}; " +
-			"expiry = SigningTime.Add(ExpiryDuration) only when the duration is non-zero; the plugin request carries ExpiryDuration/time.Second; the blob digest algorithm at signing is algorithms[keySpec.SignatureAlgorithm().Hash()] with a fail-closed miss.",
+			"(d) payload construction: SanitizeTargetArtifact copies exactly media type, digest, size and annotations of its argument; both signers sign Payload{SanitizeTargetArtifact(desc parameter)} " +
+			"(marshalled in the signing function or in a module helper it hands that parameter to; the bytes are followed through the helper's result into the request); " +
+			"expiry = SigningTime.Add(ExpiryDuration) only when the duration is non-zero (patched into the request, or computed ahead of it from the very value stored as SigningTime); the plugin request carries ExpiryDuration/time.Second; " +
+			"the blob digest algorithm at signing is algorithms[keySpec.SignatureAlgorithm().Hash()] with a fail-closed miss; " +
+			"(e) the blob descriptor generator (function literal or bound method of an object the builder fills) is {given media type, digest and byte count of the given reader under the requested algorithm}.",
 		NotCov:  "the sign->verify round trip itself for all keys and formats (cryptography and envelope encoders of notation-core-go).",
 		Trusted: []string{"go/types, go/ssa", "encoding/json", "notation-core-go signature (Sign, Verify, KeySpec)"},
 	})
@@ -82,13 +85,21 @@ func c07ReaderWriter(c *Ctx) {
 					"the payload content is decoded into "+tt+" (json decodes by field name: a different struct silently yields zero values)")
 				fresh, why := freshDecodeTarget(w.Info(fn), call)
 				c.Check(fresh, key+"/fresh-target", "the verified payload content is decoded into a fresh variable (json.Unmarshal keeps what the input omits: decoding over the request's payload would fill the gaps of the signed one)", w.InstrPos(call), why)
-			case "encoding/json.Marshal":
-				a := unwrap(call.Call.Args[0])
-				if namedOf(a.Type()) == "ngo/internal/envelope.Payload" {
-					nWrite++
-					c.OK(fmt.Sprintf("writer/%s", fnName(fn)), "the signer marshals envelope.Payload", w.InstrPos(call))
-				}
 			}
+		}
+	}
+	// writers: the json.Marshal(envelope.Payload) sites of the signers. A site is counted once per signing function its
+	// bytes are handed to (c07Writers follows result 0 of the Marshal call through the returns of module helpers into the
+	// request that is signed): two signers sharing one marshalling helper are still two signers marshalling
+	// envelope.Payload, which is what the vacuity guard below stands for.
+	for _, wr := range c07Writers(w, c07Sanitiser(w)) {
+		fns := c07SinkFns([]*c07Writer{wr})
+		if len(fns) == 0 {
+			fns = []*ssa.Function{wr.In}
+		}
+		for _, g := range fns {
+			nWrite++
+			c.OK(fmt.Sprintf("writer/%s", fnName(g)), "the signer marshals envelope.Payload", w.InstrPos(wr.Marshal))
 		}
 	}
 	if nRead < 3 {
@@ -446,16 +457,7 @@ func c07Tables(c *Ctx) {
 
 func c07Payload(c *Ctx) {
 	w := c.W
-	san := w.Func("internal/envelope", "SanitizeTargetArtifact")
-	if san == nil {
-		// by role: func(Descriptor) Descriptor in internal/envelope
-		for _, fn := range w.FuncsOfPkg("internal/envelope") {
-			sig := fn.Signature
-			if sig.Params().Len() == 1 && sig.Results().Len() == 1 && namedOf(sig.Params().At(0).Type()) == "ocispec.Descriptor" && namedOf(sig.Results().At(0).Type()) == "ocispec.Descriptor" {
-				san = fn
-			}
-		}
-	}
+	san := c07Sanitiser(w)
 	if san == nil {
 		c.Unk("payload/sanitize", "anchor: the descriptor sanitiser of internal/envelope", "-", "not found")
 		return
@@ -479,42 +481,53 @@ func c07Payload(c *Ctx) {
 		}
 	}
 	c.Check(okS, "payload/sanitize", "the sanitiser copies exactly MediaType, Digest, Size and Annotations of its argument", w.FnPos(san), fmt.Sprintf("copied: %v", copied))
-	// both signers: Payload{TargetArtifact: Sanitize(desc param)}
+	// both signers: Payload{TargetArtifact: Sanitize(desc param)}, its bytes and the payload type constant in the request.
+	// Decided per signing function = the function that stores the marshalled bytes into the request (c07Writers): the
+	// Marshal call may sit in that function or in a module helper whose result it stores; in the second case the payload
+	// must be built from the helper's parameter and the signing function must pass its own descriptor parameter for it.
 	pt, _ := w.constString("internal/envelope", "MediaTypePayloadV1")
-	n := 0
-	for _, fn := range w.FuncsOfPkg("signer") {
-		for _, ci := range allCalls(fn) {
-			call, ok := ci.(*ssa.Call)
-			if !ok || calleeName(call) != "encoding/json.Marshal" {
-				continue
-			}
-			a := unwrap(call.Call.Args[0])
-			if namedOf(a.Type()) != "ngo/internal/envelope.Payload" {
-				continue
-			}
-			n++
-			c.SeenFn(fn.String())
-			// the payload's TargetArtifact field
-			ok2 := false
-			var ta string
-			if al, isAl := unwrapLoadAlloc(a); isAl {
-				for _, r := range *al.Referrers() {
-					if fa, ok := r.(*ssa.FieldAddr); ok && fieldName(al.Type(), fa.Field) == "TargetArtifact" {
-						for _, rr := range *fa.Referrers() {
-							if st, ok := rr.(*ssa.Store); ok && st.Addr == fa {
-								ta = desc(st.Val)
-								if ta == "call:"+fnName(san)+"("+paramWhere(fn, isNamed("ocispec.Descriptor"))+")" {
-									ok2 = true
-								}
-							}
-						}
-					}
+	signerPkg := w.Pkg("signer")
+	var writers []*c07Writer
+	for _, wr := range c07Writers(w, san) {
+		if signerPkg != nil && fnPkg(wr.In) == signerPkg.Pkg {
+			writers = append(writers, wr)
+		}
+	}
+	for _, wr := range writers {
+		c.SeenFn(wr.In.String())
+		site := w.InstrPos(wr.Marshal)
+		if len(wr.Sinks) == 0 {
+			c.Check(wr.TargetOK, "payload/signed-descriptor/"+fnName(wr.In), "the payload signed is Payload{TargetArtifact: sanitise(desc parameter)}", site, "TargetArtifact is "+wr.Target)
+			c.Bad("payload/bytes-signed/"+fnName(wr.In), "the marshalled payload bytes are what is handed to the signer / plugin", site, "the marshalled bytes do not reach the request")
+			continue
+		}
+		for _, sk := range wr.Sinks {
+			g := sk.Fn
+			c.SeenFn(g.String())
+			c.Evals++
+			// the descriptor the payload is about is the signing function's descriptor parameter
+			okD := wr.TargetOK && sk.DescParam != nil && namedOf(sk.DescParam.Type()) == "ocispec.Descriptor"
+			detail := "TargetArtifact is " + wr.Target
+			nDesc := 0
+			for _, p := range g.Params {
+				if namedOf(p.Type()) == "ocispec.Descriptor" {
+					nDesc++
 				}
 			}
-			c.Check(ok2, "payload/signed-descriptor/"+fnName(fn), "the payload signed is Payload{TargetArtifact: sanitise(desc parameter)}", w.InstrPos(call), "TargetArtifact is "+ta)
-			// the marshalled bytes reach the sign request / plugin request as payload, with the payload type constant
-			okUse, okType := false, false
-			for _, b := range fn.Blocks {
+			if nDesc != 1 {
+				// "the" descriptor parameter must be unambiguous
+				okD = false
+				detail += fmt.Sprintf("; %s has %d descriptor parameters", fnName(g), nDesc)
+			}
+			if sk.DescWhy != "" {
+				detail += "; " + sk.DescWhy
+			}
+			c.Check(okD, "payload/signed-descriptor/"+fnName(g), "the payload signed is Payload{TargetArtifact: sanitise(desc parameter)}", site, detail)
+			c.OK("payload/bytes-signed/"+fnName(g), "the marshalled payload bytes are what is handed to the signer / plugin", site)
+			// the payload type constant is written next to the bytes (same object)
+			okType := false
+			owner := desc(sk.Store.Addr.(*ssa.FieldAddr).X)
+			for _, b := range g.Blocks {
 				for _, in := range b.Instrs {
 					st, isSt := in.(*ssa.Store)
 					if !isSt {
@@ -525,19 +538,15 @@ func c07Payload(c *Ctx) {
 						continue
 					}
 					f := fieldName(fa.X.Type(), fa.Field)
-					if (f == "Content" || f == "Payload") && desc(st.Val) == desc(call)+"#0" {
-						okUse = true
-					}
-					if (f == "ContentType" || f == "PayloadType") && desc(st.Val) == fmt.Sprintf("const:%q", pt) {
+					if (f == "ContentType" || f == "PayloadType") && desc(fa.X) == owner && desc(st.Val) == fmt.Sprintf("const:%q", pt) {
 						okType = true
 					}
 				}
 			}
-			c.Check(okUse, "payload/bytes-signed/"+fnName(fn), "the marshalled payload bytes are what is handed to the signer / plugin", w.InstrPos(call), "the marshalled bytes do not reach the request")
-			c.Check(okType, "payload/content-type-written/"+fnName(fn), "the payload content type written is envelope.MediaTypePayloadV1 (the one the verifier accepts)", w.InstrPos(call), "another content type is written")
+			c.Check(okType, "payload/content-type-written/"+fnName(g), "the payload content type written is envelope.MediaTypePayloadV1 (the one the verifier accepts)", site, "another content type is written next to the bytes stored at "+w.InstrPos(sk.Store))
 		}
 	}
-	if n < 2 {
+	if n := len(c07SinkFns(writers)); n < 2 {
 		c.Unk("payload/signers#count", "vacuity guard: two signers build the payload", "-", fmt.Sprintf("%d found", n))
 	}
 	// expiry
@@ -559,13 +568,12 @@ func c07Payload(c *Ctx) {
 						continue
 					}
 					d := desc(st.Val)
-					base := desc(fa.X)
 					ed := paramWhere(fn, hasField("ExpiryDuration")) + ".ExpiryDuration"
-					okV := d == "call:(time.Time).Add("+base+".SigningTime,"+ed+")"
-					g := fi.GuardsOf(st)
-					okG := labelHas(g, "NE("+ed+",const:0)")
+					// decided on the SSA value: directly SigningTime.Add(d) under the guard, or a variable computed ahead of the
+					// request whose every origin is that sum (under the guard) or the zero time — see c07ExpiryValue
+					okE, why := c07ExpiryValue(fi, st, fa, ed)
 					c.Evals++
-					c.Check(okV && okG, "payload/expiry", "expiry = SigningTime.Add(ExpiryDuration) of the same request, set only when the duration is non-zero", w.InstrPos(st), fmt.Sprintf("value %s; guards %s", d, summarizeLabels(g, 4)))
+					c.Check(okE, "payload/expiry", "expiry = SigningTime.Add(ExpiryDuration) of the same request, set only when the duration is non-zero", w.InstrPos(st), fmt.Sprintf("value %s; guards %s; %s", d, summarizeLabels(fi.GuardsOf(st), 4), why))
 				case "ExpiryDurationInSeconds":
 					d := desc(st.Val)
 					c.Check(d == "("+paramWhere(fn, hasField("ExpiryDuration"))+".ExpiryDuration / const:1000000000)", "payload/expiry-plugin", "the plugin request carries ExpiryDuration / time.Second", w.InstrPos(st), "value "+d)
@@ -575,6 +583,12 @@ func c07Payload(c *Ctx) {
 					}
 				}
 			}
+		}
+	}
+	// the two expiry clauses must have been decided somewhere: a signer that never writes the field signs without expiry whatever was requested
+	for _, kw := range [][2]string{{"payload/expiry", "SignRequest.Expiry"}, {"payload/expiry-plugin", "GenerateEnvelopeRequest.ExpiryDurationInSeconds"}} {
+		if _, seen := c.byKey[c.Prop+"/"+kw[0]]; !seen {
+			c.Unk(kw[0], "anchor: the store into "+kw[1]+" in the signer package", "-", "the field is never written: the requested expiry duration is not carried into the signature")
 		}
 	}
 	// blob digest algorithm at signing
@@ -588,7 +602,19 @@ func c07Payload(c *Ctx) {
 					s := w.Summarize(fn, Mode{Kind: mErr})
 					c.Evals += s.States
 					c.SeenFn(fn.String())
-					key := "call:(core/internal/algorithm.Algorithm).Hash(call:(core/internal/algorithm.KeySpec).SignatureAlgorithm(param:" + fn.Params[0].Name() + "))"
+					// the key spec parameter is identified by its type, not by its position: the lookup must be keyed by the hash of
+					// the key spec the function was given, wherever in the parameter list it stands (none or several: undecidable here, "param:?")
+					ksParam, nKs := "param:?", 0
+					for _, p := range fn.Params {
+						if t := namedOf(p.Type()); t == "core/internal/algorithm.KeySpec" || t == "core/signature.KeySpec" {
+							ksParam = "param:" + p.Name()
+							nKs++
+						}
+					}
+					if nKs != 1 {
+						ksParam = "param:?"
+					}
+					key := "call:(core/internal/algorithm.Algorithm).Hash(call:(core/internal/algorithm.KeySpec).SignatureAlgorithm(" + ksParam + "))"
 					c.requireOnExits("payload/blob-digest-algorithm", fn, s.Exits, []Need{
 						{Name: "lookup", What: "algorithms[keySpec.SignatureAlgorithm().Hash()] found", Subs: []string{"T(ok(" + sAlg + "[" + key + "]))"}},
 						{Name: "generator", What: "descriptor generator applied to that digest algorithm", Subs: []string{"EQ(call:dyn:param:", "(" + sAlg + "[call:(core/internal/algorithm.Algorithm).Hash(call:(core/internal/algorithm.KeySpec).SignatureAlgorithm(", "#err,nil)"}},
@@ -600,6 +626,21 @@ func c07Payload(c *Ctx) {
 	if gd == nil {
 		c.Unk("payload/blob-digest-algorithm", "anchor: the signer function that looks up the digest algorithm", "-", "not found")
 	}
+}
+
+// c07Sanitiser: the descriptor sanitiser of internal/envelope, by its exported name or, failing that, by role.
+func c07Sanitiser(w *World) *ssa.Function {
+	san := w.Func("internal/envelope", "SanitizeTargetArtifact")
+	if san == nil {
+		// by role: func(Descriptor) Descriptor in internal/envelope
+		for _, fn := range w.FuncsOfPkg("internal/envelope") {
+			sig := fn.Signature
+			if sig.Params().Len() == 1 && sig.Results().Len() == 1 && namedOf(sig.Params().At(0).Type()) == "ocispec.Descriptor" && namedOf(sig.Results().At(0).Type()) == "ocispec.Descriptor" {
+				san = fn
+			}
+		}
+	}
+	return san
 }
 
 // ---- (e) blob descriptor ---------------------------------------------------
@@ -683,7 +724,30 @@ func c07BlobDescriptor(c *Ctx) {
 	if builder != nil {
 		// the generator's closure: MediaType <- contentMediaType parameter, Digest <- digester.Digest(), Size <- io.Copy count; metadata added through the shared helper
 		c.SeenFn(builder.String())
-		for _, cl := range builder.AnonFuncs {
+		// The generator is whatever function value the builder creates: a function literal capturing the builder's parameters, or
+		// a method value bound to an object the builder fills from its parameters (c07Generators gives, for either, the body
+		// and how a captured parameter reads inside it). A builder in which no generator body is found is not decided.
+		gens := c07Generators(w, builder)
+		if len(gens) == 0 {
+			c.Unk("blob-descriptor/generator-body", "anchor: the function value the builder returns as descriptor generator (function literal or bound method)", w.FnPos(builder), "no function value is created in "+fnName(builder))
+		}
+		// every value the builder returns is one of these function values
+		for _, b := range builder.Blocks {
+			if r, ok := blockTerm(b).(*ssa.Return); ok && len(r.Results) == 1 {
+				found := false
+				for _, gen := range gens {
+					if unwrap(r.Results[0]) == ssa.Value(gen.Made) {
+						found = true
+					}
+				}
+				if !found && len(gens) > 0 {
+					c.Unk("blob-descriptor/generator-body", "anchor: the function value the builder returns as descriptor generator (function literal or bound method)", w.InstrPos(r), "the builder returns "+desc(r.Results[0])+", not a function value it creates")
+				}
+			}
+		}
+		for _, gen := range gens {
+			cl := gen.Body
+			c.SeenFn(cl.String())
 			stored := map[string]string{}
 			for _, b := range cl.Blocks {
 				for _, in := range b.Instrs {
@@ -694,8 +758,8 @@ func c07BlobDescriptor(c *Ctx) {
 					}
 				}
 			}
-			mtFV := freeVarOfParam(builder, cl, func(t types.Type) bool { b, ok := t.Underlying().(*types.Basic); return ok && b.Kind() == types.String })
-			rdFV := freeVarOfParam(builder, cl, func(t types.Type) bool { return t.String() == "io.Reader" })
+			mtFV := gen.Captured(func(t types.Type) bool { b, ok := t.Underlying().(*types.Basic); return ok && b.Kind() == types.String })
+			rdFV := gen.Captured(func(t types.Type) bool { return t.String() == "io.Reader" })
 			// the digest: Digester().Digest() after copying into Digester().Hash(), or NewDigest(alg, h) after copying into h = alg.Hash()
 			okDigest := strings.HasPrefix(stored["Digest"], "call:invoke:digest.Digester.Digest(")
 			if strings.HasPrefix(stored["Digest"], "call:digest.NewDigest(param:") {
@@ -704,13 +768,22 @@ func c07BlobDescriptor(c *Ctx) {
 					okDigest = true
 				}
 			}
-			okGen := stored["MediaType"] == mtFV && okDigest && strings.HasPrefix(stored["Size"], "call:io.Copy(") && strings.Contains(stored["Size"], rdFV)
-			c.Check(okGen, "blob-descriptor/generator-body", "the generated descriptor is {MediaType: the given content media type, Digest: digest of the bytes read with the requested algorithm, Size: number of bytes read}", w.FnPos(cl), fmt.Sprintf("fields: %v", stored))
+			// Size: the count io.Copy returns for copying the builder's reader itself (not something derived from it) into the hash
+			okSize := false
+			if sz := stored["Size"]; strings.HasPrefix(sz, "call:io.Copy(") && strings.HasSuffix(sz, "#0") {
+				_, cargs := splitTopArgs(strings.TrimSuffix(strings.TrimPrefix(sz, "call:"), "#0"))
+				okSize = len(cargs) == 2 && cargs[1] == rdFV
+			}
+			okGen := stored["MediaType"] == mtFV && okDigest && okSize
+			c.Check(okGen, "blob-descriptor/generator-body", "the generated descriptor is {MediaType: the given content media type, Digest: digest of the bytes read with the requested algorithm, Size: number of bytes read}", w.FnPos(cl), fmt.Sprintf("fields: %v (the builder's media type parameter reads as %s, its reader as %s)", stored, mtFV, rdFV))
 			// the digester comes from the algorithm argument
 			okAlg := false
 			for _, ci := range allCalls(cl) {
-				if call, ok := ci.(*ssa.Call); ok && (calleeName(call) == "(digest.Algorithm).Digester" || calleeName(call) == "(digest.Algorithm).Hash") && strings.HasPrefix(desc(call.Call.Args[0]), "param:") {
-					okAlg = true
+				if call, ok := ci.(*ssa.Call); ok && (calleeName(call) == "(digest.Algorithm).Digester" || calleeName(call) == "(digest.Algorithm).Hash") {
+					// the generator's own algorithm argument (a parameter of the body, not something read off a receiver)
+					if p, isP := loadOrigin(unwrap(call.Call.Args[0])).(*ssa.Parameter); isP && p.Parent() == cl && namedOf(p.Type()) == "digest.Algorithm" {
+						okAlg = true
+					}
 				}
 			}
 			c.Check(okAlg, "blob-descriptor/generator-algorithm", "the digester is created from the algorithm the generator was called with", w.FnPos(cl), "the digest algorithm argument is not used")
